@@ -37,8 +37,13 @@ EXC = Ty('exc')            # exception instance (python-side Raise object)
 MOD = Ty('mod')            # python-side module / namespace descriptor
 
 
-def Ref(cls):
-    return Ty('ref', cls)
+def Ref(cls, opt=False):
+    """Object reference; `opt` = may be None (represented by id 0)."""
+    return Ty('ref', cls, 'opt') if opt else Ty('ref', cls)
+
+
+def is_opt(ty):
+    return ty.kind == 'ref' and len(ty.args) > 1
 
 
 def Opaque(name):
@@ -83,8 +88,13 @@ j_isdict = z3.Function('j_isdict', JV, z3.BoolSort())     # dict vs list
 o_callable = z3.Function('o_callable', z3.IntSort(), z3.BoolSort())
 
 
+EXTRA_SORTS = {}      # type kind -> SMT sort (registered by library modules)
+
+
 def sort_of(ty):
     k = ty.kind
+    if k in EXTRA_SORTS:
+        return EXTRA_SORTS[k]
     if k == 'int' or k == 'ref' or k == 'opaque':
         return z3.IntSort()
     if k == 'bool':
@@ -190,6 +200,8 @@ def box(v):
         return PV.pya(v.t)
     if k == 'json':
         return PV.pj(v.t)
+    if k == 'ref' and is_opt(v.ty):
+        return z3.If(v.t == 0, PV.pnone, PV.po(v.t))
     if k in ('ref', 'opaque'):
         return PV.po(v.t)
     if k == 'list' and v.ty.args[0] == STR:
@@ -260,6 +272,8 @@ def truth(v):
         return z3.Length(v.t) > 0
     if k == 'list':
         return z3.Length(v.t) > 0
+    if k == 'ref' and is_opt(v.ty):
+        return v.t != 0
     if k in ('ref', 'opaque', 'fn', 'mod', 'exc'):
         return z3.BoolVal(True)
     if k == 'json':
